@@ -3488,7 +3488,12 @@ class Inflate(Array):
 
     def _intbounds_impl(self):
         lower, upper = self.func._intbounds
-        return min(lower, 0), max(upper, 0)
+        # entries that share a dof are accumulated, so up to `n` values may add up
+        if isinstance(self.dofmap, Constant) and len(numpy.unique(self.dofmap.value)) == self.dofmap.value.size:
+            n = 1
+        else:
+            n = util.product((length._intbounds[1] for length in self.dofmap.shape), 1)
+        return (min(lower, 0) * n if lower < 0 and n else 0), (max(upper, 0) * n if upper > 0 and n else 0)
 
     def _argument_degree(self, argument):
         if argument not in self.dofmap.arguments and argument not in self.length.arguments:
